@@ -29,7 +29,7 @@ VAR_NAMES = ["a", "b", "c", "t", "u", "v", "w", "x", "y", "z", "acc", "tmp", "va
 
 
 class Gen:
-    def __init__(self, seed, max_funcs=2, depth=3, max_stmts=6, allow=(), calls_focus=False, chain=False, tricky_names=False, nested_defs=False):
+    def __init__(self, seed, max_funcs=2, depth=3, max_stmts=6, allow=(), calls_focus=False, chain=False, tricky_names=False, nested_defs=False, named_consts=False, terminating=False):
         self.r = random.Random(seed)
         self.max_funcs, self.depth, self.max_stmts = max_funcs, depth, max_stmts
         self.allow = set(allow)
@@ -40,6 +40,9 @@ class Gen:
         self.main_vars = 0  # module-level variables live for the whole program: keep their number small
         self.calls_focus = calls_focus  # small bodies, deeper call graphs (C02 / C06 shapes)
         self.tricky_names = tricky_names
+        self.named_consts = named_consts  # module-level named constants used as range steps / bounds and as flags guarding statements
+        self.terminating = terminating  # the top-level script ends (no final endless loop); functions are leaves with at most one call site
+        self.const_decls = {}
         self.nested_defs = nested_defs  # functions may define (and call) a local helper function
         self.chain = chain  # call chains main -> f_n -> ... -> f_1, callees defined first, inner functions reached only through the chain
 
@@ -212,6 +215,14 @@ class Gen:
                 e = f"({e} + 0)"
             vars_.append(v)
             return [f"{ind}{v} = {e}"]
+        if k < 0.6 and self.named_consts and r.random() < 0.3:
+            # a branch switched by a named flag ('if not FLAG' is the recorded known finding C01-if-not-constant: not generated)
+            self.features.add("if-named-flag")
+            flag = self.named("FLAG", r.choice([0, 1]))
+            out = [f"{ind}if {flag}:"] + self.block(vars_, inner, depth - 1, r.randrange(1, 3), in_loop, in_func)
+            if r.random() < 0.5:
+                out += [f"{ind}else:"] + self.block(vars_, inner, depth - 1, r.randrange(1, 3), in_loop, in_func)
+            return out
         if k < 0.6:
             self.features.add("if")
             out = [f"{ind}if {self.cond(vars_)}:"] + self.block(vars_, inner, depth - 1, r.randrange(1, 3), in_loop, in_func)
@@ -225,7 +236,15 @@ class Gen:
             self.features.add("for-range")
             i = self.fresh("i")
             form = r.random()
-            if form < 0.5:
+            if self.named_consts and r.random() < 0.45:
+                self.features.add("for-range-named-const")
+                if r.random() < 0.5:
+                    st_, a = self.named("STEP", r.choice([-1, -2, -3])), r.randrange(3, 8)
+                    rng = f"range({a}, {a - r.randrange(1, 5)}, {st_})"
+                else:
+                    st_, a = self.named("UP", r.choice([1, 2])), r.randrange(0, 3)
+                    rng = f"range({a}, {self.named('LIM', a + r.randrange(1, 5))}, {st_})"
+            elif form < 0.5:
                 rng = f"range({r.randrange(1, 5)})"
             elif form < 0.75:
                 a = r.randrange(0, 3)
@@ -298,6 +317,15 @@ class Gen:
         if k < 0.7:
             return f"{base} * 2 + 1"
         return base
+
+    def named(self, prefix, value):
+        """a module-level constant name bound to `value` (declared once at the top of the program)"""
+        for n, v in self.const_decls.items():
+            if v == value and n.startswith(prefix):
+                return n
+        n = f"{prefix}{len(self.const_decls)}"
+        self.const_decls[n] = value
+        return n
 
     def ret(self, vars_, returns, ind):
         return [f"{ind}return {self.expr(vars_, 1)}"] if returns else [f"{ind}return"]
@@ -433,18 +461,42 @@ class Gen:
             lines.append(f"{g} = {self.const()}")
         defs = []
         made = []
+        if self.terminating:
+            names = names[: max(1, min(2, len(names)))] if names else names
         for n in names:
             nargs = (r.randrange(0, 4) if not self.calls_focus else r.randrange(0, 3)) if not self.chain else r.randrange(0, 2)
             returns = r.random() < 0.6
             if self.chain and n != names[-1]:
                 # a value-returning function that is called only from other functions: known finding C04-inlined-return-register
                 returns = False
-            body = self.function(n, nargs, returns, list(made))
+            body = self.function(n, nargs, returns, list(made) if not self.terminating else [])
             made.append((n, nargs, returns, self.last_mods_global or any(c[3] for c in made if f"{c[0]}(" in "\n".join(body))))
             defs += body + [""]
         self.funcs = made
         lines += defs
         vars_ = list(self.globals)
+        if self.terminating:
+            # the script runs once and ends.  Every function has one call site (inlined under the default options, so no
+            # function region follows the main code: the recorded finding C07-main-falls-through is not in this space) or
+            # its only call sits in a branch that a named flag switches off.
+            self.funcs = []
+            body = self.block(vars_, "", 2, r.randrange(1, 4))
+            for f in made:
+                args = ", ".join(self.arg(vars_, 1) for _ in range(f[1]))
+                call = f"db.Setting = {f[0]}({args})" if f[2] else f"{f[0]}({args})"
+                if r.random() < 0.5:
+                    flag = self.named("FLAG", r.choice([0, 0, 1]))
+                    self.features.add("call-under-named-flag")
+                    body += [f"if {flag}:", f"    {call}"] + (["else:", f"    db.On = {self.const()}"] if r.random() < 0.4 else [])
+                else:
+                    body.append(call)
+            body += self.block(vars_, "", 1, r.randrange(0, 2))
+            body.append(f"db.Mode = {self.const()}")
+            lines += body
+            self.features.add("terminating-main")
+            if made:
+                self.features.add(f"functions:{len(made)}")
+            return "\n".join(self._with_consts(lines)) + "\n"
         pre = self.block(vars_, "", 1, r.randrange(0, 3) if not self.chain else 0)
         lines += pre
         lines.append("while True:")
@@ -467,7 +519,13 @@ class Gen:
         lines.append("    yield_()")
         if made:
             self.features.add(f"functions:{len(made)}")
-        return "\n".join(lines) + "\n"
+        return "\n".join(self._with_consts(lines)) + "\n"
+
+    def _with_consts(self, lines):
+        if not self.const_decls:
+            return lines
+        decl = [f"{n} = {v}" for n, v in self.const_decls.items()]
+        return lines[:5] + decl + lines[5:]
 
 
 def generate(seed, **kw):
